@@ -166,7 +166,7 @@ def check(case):
 
 
 def _strategy():
-    return gp.programs().map(lambda p: {"prog": p})
+    return st.one_of(gp.programs(), gp.programs(), gp.programs(evidence_bias=True)).map(lambda p: {"prog": p})
 
 
 KNOWN_CLASSES = {
